@@ -62,6 +62,11 @@ CLAIMS = {
             '--no-default-features build of the harness on the corpora of C01/C03/C06/C13-C15 (JIT from caller-supplied executable memory) and requiring '
             'identical transcripts.',
             'Helpers that exist only with std are outside the comparison.'),
+    'C15': ('proof', 'Theorem C15_disassembly_is_specified: on every byte string in the property\'s domain the disassembler regenerated from '
+            'disassembler.rs (operand renderers, the opcode table, the loop merging wide loads; format! translated through a model of Rust\'s {} and {:#x}) '
+            'returns exactly the entries of an independently written specification (mnemonic table by ISA numbering, assembler syntax, merged 64-bit '
+            'immediate), for programs of any length and all field values; hence it never panics there. Correspondence compares the real to_insn_vec.',
+            'Rust\'s integer formatting is modelled by theories/Fmt.v (validated by the correspondence); warn! log output ignored.'),
     'C17': ('proof', 'Theorems C17_* (props/C17.v) prove, for all field values and all program positions, that the encoders/decoder/builder serializer '
             'regenerated from src/ebpf.rs and src/insn_builder.rs equal the specified slot layout and that the layout is a bijection; the '
             'correspondence run ties model and spec to the real crate.', 'Builder constructors -> opcode byte is tied by exhaustive enumeration of constructors.'),
